@@ -92,7 +92,12 @@ package api
 //@ iface HubReaderInterface.RemoteSKIDisconnected(ski)
 //@ iface HubReaderInterface.SetupRemoteDevice(ski, writeI)
 //@ iface HubReaderInterface.VisibleRemoteServicesUpdated(entries)
+// $appIdReports / $appLastId: what the application (hub reader) has been told about SHIP IDs, per SKI
+//@ ghost global $appIdReports map[string]int
+//@ ghost global $appLastId map[string]string
 //@ iface HubReaderInterface.ServiceShipIDUpdate(ski, shipID)
+//@   ensures $appIdReports[ski] == old($appIdReports[ski]) + 1 && $appLastId[ski] == shipID
+//@   modifies $appIdReports[ski], $appLastId[ski]
 //@ iface HubReaderInterface.ServicePairingDetailUpdate(ski, detail)
 //@ iface HubReaderInterface.AllowWaitingForTrust(ski) pure
 //@ iface MdnsInterface.Start(cb)
